@@ -37,6 +37,7 @@ where useful, a `js` attribute with the ESTree type):
   [a, ...b]                      -> List with Starred ; {k: v} -> Dict with Constant keys
 """
 import ast
+import copy
 import json
 import os
 import subprocess
@@ -219,12 +220,35 @@ class Lowerer:
             disc = self.expr(n['discriminant'])
             chain = None
             default = []
-            for case in reversed(n['cases']):
-                cbody = [s for s in self.block(case['consequent']) if not isinstance(s, ast.Break)]
-                if case.get('test') is None:
+            # `case 'a': case 'b': body` - labels without a body share the body of the next label; a body that does not end in
+            # break/return/throw/continue falls through into the next one
+            groups = []      # (tests or None for default, case node, body statements)
+            pending = []
+            for case in n['cases']:
+                pending.append(case)
+                if case['consequent']:
+                    groups.append((pending, case))
+                    pending = []
+            if pending:
+                groups.append((pending, pending[-1]))
+            lowered = []
+            nxt_body = []
+            for labels, case in reversed(groups):
+                raw = self.block(case['consequent'])
+                ends = bool(raw) and isinstance(raw[-1], (ast.Break, ast.Return, ast.Raise, ast.Continue))
+                cbody = [s for s in raw if not isinstance(s, ast.Break)]
+                if not ends:
+                    cbody = cbody + copy.deepcopy(nxt_body)
+                nxt_body = cbody
+                lowered.append((labels, case, cbody))
+            for labels, case, cbody in lowered:
+                if any(lb.get('test') is None for lb in labels):
                     default = cbody
-                    continue
-                test = ast.Compare(left=disc, ops=[ast.Eq()], comparators=[self.expr(case['test'])])
+                    if len(labels) == 1:
+                        continue
+                    labels = [lb for lb in labels if lb.get('test') is not None]
+                tests = [ast.Compare(left=copy.deepcopy(disc), ops=[ast.Eq()], comparators=[self.expr(lb['test'])]) for lb in labels]
+                test = tests[0] if len(tests) == 1 else ast.BoolOp(op=ast.Or(), values=tests)
                 chain = [self.fix(ast.If(test=test, body=self.nonempty(cbody, case), orelse=chain if chain is not None else default), case)]
             res = chain if chain is not None else default
             for r in res:
